@@ -154,10 +154,21 @@ def gen_arith(rng, cols, depth):
 
 def gen_cond(rng, cols, depth=2):
     r = rng.random()
-    if depth > 0 and r < 0.25:
+    if depth > 0 and r < 0.2:
         return [rng.choice(['and', 'or']), gen_cond(rng, cols, depth - 1), gen_cond(rng, cols, depth - 1)]
-    if r < 0.33:
-        return gen_arith(rng, cols, 1)  # any non-zero value removes
+    if r < 0.5:
+        # not a 0/1 indicator: a code column, a difference of columns, a scaled or shifted column (values 2, -3, 0.5 ...):
+        # every row with a NON-ZERO value is removed and counted once
+        k = rng.random()
+        if k < 0.3:
+            return ['var', rng.choice(cols)]
+        if k < 0.55:
+            return ['sub', ['var', rng.choice(cols)], ['var', rng.choice(cols)]]
+        if k < 0.75:
+            return ['mul', ['var', rng.choice(cols)], ['num', f2b(rng.choice([2.0, -3.0, 0.5, -0.125]))]]
+        if k < 0.9:
+            return ['sub', ['var', rng.choice(cols)], gen_num(rng)]
+        return gen_arith(rng, cols, 2)
     return [rng.choice(['eq', 'ne', 'lt', 'le', 'gt', 'ge']), gen_arith(rng, cols, 1), gen_arith(rng, cols, 1) if rng.random() < 0.5 else gen_num(rng)]
 
 
@@ -196,7 +207,7 @@ def gen_table(rng, panelable=None, dup=False):
         rows.append(row)
     kind = rng.random()
     if dup:
-        index = [rng.randint(0, max(1, n // 2)) for _ in range(n)]
+        index = [rng.randint(0, max(0, n // 2 - 1)) for _ in range(n)] if n > 1 else [0]
     elif kind < 0.35:
         index = list(range(n))
     elif kind < 0.7:
@@ -251,7 +262,7 @@ def gen_ops(rng, table, allow_known=False):
 
 
 def gen_case(rng, allow_known=False):
-    t = gen_table(rng)
+    t = gen_table(rng, dup=rng.random() < 0.15)   # duplicate labels (pd.concat of frames) also in the main stream
     return {'kind': 'ops', 'table': t, 'ops': gen_ops(rng, t, allow_known), 'np_seed': rng.randint(0, 2**31 - 1)}
 
 
@@ -290,7 +301,11 @@ def capture(d):
 
 
 def for_model(state):
-    return {k: state[k] for k in ('cols', 'rows', 'excluded', 'panel', 'map')}
+    """the state handed to / compared with the model; `excluded` is a natural number in the model: whatever the
+    code reports is judged by the oracle (count of the rows with a non-zero condition) and clipped here"""
+    m = {k: state[k] for k in ('cols', 'rows', 'excluded', 'panel', 'map')}
+    m['excluded'] = max(0, int(state['excluded']))
+    return m
 
 
 def outcome(fn):
@@ -339,6 +354,22 @@ def map_consistent(state):
 
 
 # ============================================================================ one case
+
+
+def badd(ctx, res, req, cb, info):
+    """queue a model question; a driver error or an exception inside the comparison is a divergence, never a crash"""
+
+    def guarded(ans):
+        try:
+            if isinstance(ans, dict) and 'error' in ans:
+                res.diverge(f'the model driver refused the request ({ans["error"]})', info, ans, _brief(req))
+                return
+            cb(ans)
+        except Exception as e:  # noqa: BLE001
+            res.diverge(f'comparison with the model failed: {type(e).__name__}: {str(e)[:150]}', info, _brief(ans), _brief(req))
+
+    ctx.batch.add(req, guarded)
+
 
 
 def run_ops_case(ctx, res, case):
@@ -399,8 +430,10 @@ def run_ops_case(ctx, res, case):
                                 why, where = 'remove on a panel did not keep exactly the rows whose condition is zero', 'Database.remove'
                             elif not map_consistent(after):
                                 why, where = 'after remove the individual map does not describe the data any more', W_PANEL_REMOVE
-                        if why is None and after['excluded'] != nrem:
-                            why, where = f'remove reports {after["excluded"]} excluded rows, the condition is non-zero on {nrem}', 'Database.remove'
+                        if after['excluded'] != nrem:
+                            # judged on its own, whatever else happened: the number reported = the number of rows with a non-zero condition
+                            res.violate(f'step {step} remove: excludedData = {after["excluded"]}, but the condition is non-zero on {nrem} of the {len(vals)} rows '
+                                        f'(values of the condition: {sorted(set(vals))[:8]})', info, after['excluded'], nrem, where='Database.remove: excludedData')
                         if why is None and (after['cols'] != before['cols']):
                             why, where = 'remove changed the columns', 'Database.remove'
                     elif op[0] in ('add_column', 'define_variable'):
@@ -474,7 +507,7 @@ def run_ops_case(ctx, res, case):
                             where = W_PANEL_ORDER
                     res.diverge(f'step {info["step"]} {op[0]}: state after the call', info, _brief(ms), _brief(real), where=where)
 
-                ctx.batch.add(req, cb)
+                badd(ctx, res, req, cb, info)
                 continue
             # ------------------------------------------------------------------ read-only operations
             if (op[0] in ('count', 'groups') and op[1] not in before['cols']) or (op[0] == 'values' and not vars_ok(op[1])):
@@ -491,37 +524,39 @@ def run_ops_case(ctx, res, case):
                     continue
                 folds = [[ev.estimation.index.tolist(), ev.validation.index.tolist(), frame_rows(ev.estimation), frame_rows(ev.validation)] for ev in o[1]]
                 gcol = op[2] if before['panel'] is None else before['panel']
-                table = {r[0]: r[1] for r in before['rows']}
-                if not unique:
-                    continue
-                # oracle: partition, complement, values intact, groups together
+                # oracle (rows as (label, values) pairs compared as multisets, so it is also right with duplicate labels):
+                # k folds; validation parts = every row once; estimation = complement by position; groups together
+                key = lambda rows: sorted(json.dumps(r) for r in rows)  # noqa: E731
+                allrows = key(before['rows'])
                 why = None
-                allv = [l for f in folds for l in f[1]]
                 if len(folds) != op[1]:
                     why = f'{len(folds)} folds for {op[1]} slices'
-                elif sorted(allv) != sorted(labels):
+                elif key([r for f in folds for r in f[3]]) != allrows:
                     why = 'the validation parts do not contain every row exactly once'
-                elif any(sorted(f[0] + f[1]) != sorted(labels) for f in folds):
-                    why = 'an estimation part is not the complement of its validation part'
-                elif any(table.get(l) != v for f in folds for (l, v) in f[2] + f[3]):
-                    why = 'a row of a fold differs from the row of the table'
-                elif gcol is not None:
-                    j = before['cols'].index(gcol)
-                    for f in folds:
-                        vs = {table[l][j] for l in f[1]}
-                        if any(table[l][j] in vs for l in f[0]):
-                            why = 'rows of one group are separated'
+                else:
+                    for fi, f in enumerate(folds):
+                        if key(f[2] + f[3]) != allrows:
+                            why = (f'fold {fi}: estimation part ({len(f[2])} rows) + validation part ({len(f[3])} rows) is not the whole table '
+                                   f'({len(before["rows"])} rows): the estimation part is not the complement of the validation part')
                             break
+                    if why is None and gcol is not None:
+                        j = before['cols'].index(gcol)
+                        for f in folds:
+                            vs = {r[1][j] for r in f[3]}
+                            if any(r[1][j] in vs for r in f[2]):
+                                why = 'rows of one group are separated'
+                                break
                 if why:
                     res.violate(f'step {step} split({op[1]}, groups={gcol}): {why}', info, [f[:2] for f in folds], 'a partition into folds', where='Database.split')
                 groups = None if gcol is None else [[r[0], r[1][before['cols'].index(gcol)]] for r in before['rows']]
                 req = {'op': 'folds', 'all': labels, 'k': op[1], 'folds': [[f[0], f[1]] for f in folds], 'groups': groups}
 
-                def cb(ans, info=info, folds=folds, gcol=gcol, op=op):
-                    if ans.get('partition') is not True or (gcol is not None and ans.get('unsplit') is not True) or (gcol is None and ans.get('sizes') is not True):
+                def cb(ans, info=info, folds=folds, gcol=gcol, op=op, unique=unique):
+                    # (the label-based groupsUnsplit relation needs pairwise different labels; with duplicates the oracle above decides on the values)
+                    if ans.get('partition') is not True or (gcol is not None and unique and ans.get('unsplit') is not True) or (gcol is None and ans.get('sizes') is not True):
                         res.diverge(f'step {info["step"]} split: relation IsFoldPartition / groupsUnsplit / sizes on the real folds', info, ans, [f[:2] for f in folds])
 
-                ctx.batch.add(req, cb)
+                badd(ctx, res, req, cb, info)
                 res.traces_validated += 1
             elif op[0] in ('sample', 'sample_map'):
                 if op[0] == 'sample':
@@ -541,8 +576,8 @@ def run_ops_case(ctx, res, case):
                     pool = before['rows']
                     if len(sample) != size or any(s not in pool for s in sample):
                         res.violate(f'step {step} sample_with_replacement: size {len(sample)} (asked {size}) or a row that is not in the table', info, sample[:3], 'rows of the table', where='Database.sample_with_replacement')
-                    ctx.batch.add({'op': 'bootstrap', 'rows': pool, 'sample': sample},
-                                  lambda a, info=info: None if a.get('ok') is True else res.diverge(f'step {info["step"]} relation IsBootstrapOf on the real sample', info, a, ''))
+                    badd(ctx, res, {'op': 'bootstrap', 'rows': pool, 'sample': sample},
+                                  lambda a, info=info: None if a.get('ok') is True else res.diverge(f'step {info["step"]} relation IsBootstrapOf on the real sample', info, a, ''), info)
                 else:
                     sample = [[f2b(float(i)), int(r[0]), int(r[1])] for i, r in zip(o[1].index.tolist(), o[1].to_numpy().tolist())]
                     size = len(before['map'] or []) if op[1] is None else op[1]
@@ -569,17 +604,17 @@ def run_ops_case(ctx, res, case):
                     res.violate(f'step {step} extract_rows({op[1]}) raised {o[1]}', info, o[1], 'rows', where='Database.extract_rows')
                 if not op[1]:
                     continue  # empty selection: Database() refuses an empty table
-                ctx.batch.add({'op': 'extract', 'db': for_model(before), 'pos': op[1]},
+                badd(ctx, res, {'op': 'extract', 'db': for_model(before), 'pos': op[1]},
                               lambda a, o=o, info=info: None if ((('ok' in a) and o[0] == 'ok' and unsign(a['ok']) == frame_rows(o[1].data)) or (('err' in a) and o[0] == 'err' and a['err'] == o[1]))
-                              else res.diverge(f'step {info["step"]} extract_rows', info, a, o[1] if o[0] == 'err' else frame_rows(o[1].data)))
+                              else res.diverge(f'step {info["step"]} extract_rows', info, a, o[1] if o[0] == 'err' else frame_rows(o[1].data)), info)
             elif op[0] == 'count':
                 o = outcome(lambda: int(d.count(op[1], b2f(op[2]))))
                 j = before['cols'].index(op[1])
                 exp = sum(1 for r in before['rows'] if b2f(r[1][j]) == b2f(op[2]))
                 if o != ('ok', exp):
                     res.violate(f'step {step} count({op[1]}, {b2f(op[2])}) = {o[1]}', info, o[1], exp, where='Database.count')
-                ctx.batch.add({'op': 'count', 'db': for_model(before), 'col': op[1], 'value': op[2]},
-                              lambda a, o=o, info=info: None if a.get('ok') == o[1] else res.diverge(f'step {info["step"]} count', info, a, o[1]))
+                badd(ctx, res, {'op': 'count', 'db': for_model(before), 'col': op[1], 'value': op[2]},
+                              lambda a, o=o, info=info: None if a.get('ok') == o[1] else res.diverge(f'step {info["step"]} count', info, a, o[1]), info)
             elif op[0] == 'flatten':
                 o = outcome(lambda: d.generate_flat_panel_dataframe(identical_columns=op[1]))
                 if before['panel'] is None:
@@ -612,9 +647,9 @@ def run_ops_case(ctx, res, case):
                     exp[v] = cells
                 if got != exp:
                     res.violate(f'step {step} generate_flat_panel_dataframe differs from the observations of the table', info, _brief(got), _brief(exp), where='Database.generate_flat_panel_dataframe')
-                ctx.batch.add({'op': 'flatten', 'db': for_model(before), 'identical': op[1]},
+                badd(ctx, res, {'op': 'flatten', 'db': for_model(before), 'identical': op[1]},
                               lambda a, got=got, info=info: None if {x[0]: {n: v for n, v in x[1]} for x in unsign(a.get('ok', []))} == got
-                              else res.diverge(f'step {info["step"]} flatten', info, _brief(a), _brief(got)))
+                              else res.diverge(f'step {info["step"]} flatten', info, _brief(a), _brief(got)), info)
             elif op[0] == 'values':
                 o = outcome(lambda: [f2b(float(v)) for v in d.values_from_database(to_expr(op[1]))])
                 exp = [f2b(py_eval(op[1], r)) for r in rd]
@@ -622,8 +657,8 @@ def run_ops_case(ctx, res, case):
                     res.violate(f'step {step} values_from_database differs from the value of the formula on the rows', info, o[1], exp, where='Database.values_from_database')
                 elif o[0] == 'err' and rd and vars_ok(op[1]):
                     res.violate(f'step {step} values_from_database raised {o[1]}', info, o[1], exp, where='Database.values_from_database')
-                ctx.batch.add({'op': 'eval', 'db': for_model(before), 'fm': op[1]},
-                              lambda a, o=o, info=info: None if (unsign(a.get('ok')) == o[1] if o[0] == 'ok' else a.get('err') == o[1]) else res.diverge(f'step {info["step"]} values_from_database', info, a, o[1]))
+                badd(ctx, res, {'op': 'eval', 'db': for_model(before), 'fm': op[1]},
+                              lambda a, o=o, info=info: None if (unsign(a.get('ok')) == o[1] if o[0] == 'ok' else a.get('err') == o[1]) else res.diverge(f'step {info["step"]} values_from_database', info, a, o[1]), info)
             elif op[0] == 'groups':
                 import biogeme.tools.database as tdb
 
@@ -633,8 +668,8 @@ def run_ops_case(ctx, res, case):
                 exp = sum(1 for i, v in enumerate(vals) if i == 0 or vals[i - 1] != v)
                 if o != ('ok', exp):
                     res.violate(f'step {step} count_number_of_groups = {o[1]}', info, o[1], exp, where='tools.database.count_number_of_groups')
-                ctx.batch.add({'op': 'groups', 'values': vals},
-                              lambda a, o=o, info=info: None if a.get('runs') == o[1] else res.diverge(f'step {info["step"]} count_number_of_groups', info, a, o[1]))
+                badd(ctx, res, {'op': 'groups', 'values': vals},
+                              lambda a, o=o, info=info: None if a.get('runs') == o[1] else res.diverge(f'step {info["step"]} count_number_of_groups', info, a, o[1]), info)
             if capture(d) != before and op[0] not in ('split', 'sample', 'sample_map'):
                 res.violate(f'step {step} {op[0]} (read-only) changed the database', info, _brief(capture(d)), _brief(before), where='Database')
     res.count({'table': case['table'], 'ops': case['ops']}, nontrivial=nontrivial)
@@ -725,6 +760,22 @@ CORPUS = [
 ]
 
 
+CORPUS += [
+    # split with duplicate labels (plain and grouped): estimation part = complement BY POSITION
+    {'kind': 'ops', 'np_seed': 6, 'table': {'cols': ['id', 'x'], 'index': [0, 1, 2, 0, 1, 2], 'int_cols': ['id'],
+                                             'rows': [[1, 0.5], [1, 1.0], [2, 1.5], [2, 2.0], [3, 2.5], [3, 3.0]]},
+     'ops': [['split', 2, None], ['split', 3, None], ['split', 2, 'id'], ['split', 3, 'id']]},
+    # remove with conditions that are not 0/1 indicators: difference of columns, code column, fractional column
+    {'kind': 'ops', 'np_seed': 7, 'table': {'cols': ['code', 'a', 'b'], 'index': [3, 4, 8, 9, 11], 'int_cols': ['code'],
+                                             'rows': [[2, 0.5, 0.5], [0, 1.0, -2.0], [-3, 0.0, 0.0], [0, 0.5, 0.5], [5, -1.5, 1.5]]},
+     'ops': [['remove', ['sub', ['var', 'a'], ['var', 'b']]]]},
+    {'kind': 'ops', 'np_seed': 8, 'table': {'cols': ['code', 'a'], 'index': [0, 1, 2, 3], 'int_cols': ['code'], 'rows': [[2, 0.5], [0, 0.0], [-3, 0.5], [0, 0.0]]},
+     'ops': [['remove', ['var', 'code']]]},
+    {'kind': 'ops', 'np_seed': 9, 'table': {'cols': ['code', 'a'], 'index': [0, 1, 2, 3], 'int_cols': ['code'], 'rows': [[2, 0.5], [0, 0.0], [-3, 0.5], [0, 0.25]]},
+     'ops': [['remove', ['var', 'a']], ['panel', 'code']]},
+]
+
+
 def is_dup_case(case):
     idx = ((case or {}).get('table') or {}).get('index') or []
     return len(set(idx)) != len(idx)
@@ -777,7 +828,9 @@ def check(ctx) -> Result:
     # dedicated streams for the shapes of the known findings
     for _ in range(ctx.n(60, 600)):
         t = gen_table(rng, dup=True)
-        run_case(ctx, res, {'kind': 'ops', 'table': t, 'ops': gen_ops(rng, t)[:4], 'np_seed': rng.randint(0, 2**31 - 1)})
+        ops = gen_ops(rng, t)[:4] + [['split', rng.choice([2, 3, 4]), None], ['split', rng.choice([2, 3]), 'id'], ['remove', gen_cond(rng, t['cols'])],
+                                     ['split', 2, rng.choice([None, 'id'])]]
+        run_case(ctx, res, {'kind': 'ops', 'table': t, 'ops': ops, 'np_seed': rng.randint(0, 2**31 - 1)})
     for _ in range(ctx.n(80, 1000)):
         t = gen_table(rng, panelable=True)
         ops = [['panel', 'id']] + gen_ops(rng, t, allow_known=True)
